@@ -171,6 +171,7 @@ def write_coqproject():
     files = []
     for d in ("theories", "gen"):
         p = os.path.join(COQ, d)
+        os.makedirs(p, exist_ok=True)
         files += sorted(f"{d}/{f}" for f in os.listdir(p) if f.endswith(".v"))
     txt = hdr + "\n" + "\n".join(files) + "\n"
     full = os.path.join(COQ, "_CoqProject.full")
